@@ -1,9 +1,61 @@
-(* C01 — interim: executable example; theorems are added with Scope/*Proofs.v *)
-From Verif Require Import Base Token TokEngine Lex Headers Blocks Pairing Fold ScanFile.
+(* C01 — exact function discovery, span and length on canonical programs.
+   PARTIAL: what is proved is the pipeline theorem for the brace languages —
+   GIVEN that the matcher returns exactly the headers of the function descriptors
+   (hypothesis `extract_headers l code = OK hs /\ Permutation hs (map header_of ds)`),
+   brace matching, the reverse-order pairing with block deletion, the nesting fold and
+   the line counting report exactly the measurements the property prescribes
+   (Scope/Spec.v: one per descriptor, in source order, name = the name token, span from
+   the header's first token to just past the closing brace, length = distinct lines of
+   the function's own tokens, tokens of nested functions excluded).
+   MISSING (validated by the generator of harness/progen.py on every run, not proved):
+   (a) that on every program of the canonical grammar the captured header patterns
+   match exactly at the function headers; (b) the Python indentation family.
+   Proofs: Scope/SpecProofs{Dyck,Pairing,Fold,Count,}.v. *)
+From Verif Require Import Base Token Lex LexProofs Headers Blocks Pairing Fold ScanFile Spec
+  SpecProofsDyck SpecProofsPairing SpecProofsFold SpecProofsCount SpecProofs.
+From Coq Require Import Sorted Permutation.
+
+Theorem C01_brace_pipeline_partial : forall (l : language) toks ds,
+  l <> LPython -> lang_nested l = true ->
+  let code := filter_tokens false toks in
+  StronglySorted pos_lt code ->                       (* guaranteed by the lexing model: C16 *)
+  filter_nocl_comment_tokens toks = [] ->             (* suppression markers: C17 *)
+  wf_descs code ds ->
+  (exists hs, extract_headers l code = OK hs /\ Permutation hs (map header_of ds)) ->   (* header recognition: NOT proved *)
+  scan_file l toks = expected_all code ds ds.
+Proof. exact C01_brace_pipeline. Qed.
+
+(* C: functions do not nest *)
+Theorem C01_c_pipeline_partial : forall (l : language) toks ds,
+  l <> LPython -> lang_nested l = false ->
+  let code := filter_tokens false toks in
+  StronglySorted pos_lt code -> filter_nocl_comment_tokens toks = [] -> wf_descs code ds ->
+  (forall c d, In c ds -> In d ds -> ~ nested_in c d) ->
+  (exists hs, extract_headers l code = OK hs /\ Permutation hs (map header_of ds)) ->
+  scan_file l toks = expected_all code ds ds.
+Proof. exact C01_brace_pipeline_flat. Qed.
+
+(* the brace matcher returns exactly the Dyck-matched pairs *)
+Theorem C01_blocks_are_dyck : forall ts i j,
+  In (i, S j) (balanced_from 0 ts lbrace rbrace []) <-> matched ts i j.
+Proof. exact blocks_are_dyck. Qed.
+
+(* every header is paired with its own body, whatever lies around and inside it *)
+Theorem C01_pairing : forall ts ds hs, StronglySorted pos_lt ts -> wf_descs ts ds ->
+  Permutation hs (map header_of ds) ->
+  build_scopes_from ts hs (get_blocks ts) = map scope_of ds.
+Proof. exact pairing_spec. Qed.
+
+Print Assumptions C01_brace_pipeline_partial.
+Print Assumptions C01_c_pipeline_partial.
+Print Assumptions C01_blocks_are_dyck.
+Print Assumptions C01_pairing.
+
 Open Scope Z_scope.
-(* int f ( ) { x ; }  on two lines *)
-Example C01_ex_simple :
-  scan_file LC [mkTok KKeyword [105;110;116] 1 1; mkTok KName [102] 1 5; mkTok KPunct [40] 1 6; mkTok KPunct [41] 1 7;
-                mkTok KPunct [123] 1 9; mkTok KName [120] 2 3; mkTok KPunct [59] 2 4; mkTok KPunct [125] 3 1]
-  = OK [mkMeas [102] (mkLoc 1 5) (mkLoc 3 2) 3].
-Proof. vm_compute. reflexivity. Qed.
+(* non-vacuity: int f ( ) { x ; }  on three lines, one descriptor *)
+Example C01_example :
+  let code := [mkTok KKeyword [105;110;116] 1 1; mkTok KName [102] 1 5; mkTok KPunct [40] 1 6; mkTok KPunct [41] 1 7;
+               mkTok KPunct [123] 1 9; mkTok KName [120] 2 3; mkTok KPunct [59] 2 4; mkTok KPunct [125] 3 1] in
+  scan_file LCpp code = expected_all code [mkFd 1 1 4 4 7] [mkFd 1 1 4 4 7] /\
+  expected_all code [mkFd 1 1 4 4 7] [mkFd 1 1 4 4 7] = OK [mkMeas [102] (mkLoc 1 5) (mkLoc 3 2) 3].
+Proof. vm_compute. split; reflexivity. Qed.
